@@ -49,9 +49,13 @@ where
     ) -> Self {
         let from = from.min(stored_len);
         let to = to.min(stored_len);
+        // Lock order: pages before the reader's mmap guard. The writer holds the pages
+        // lock while it stores into the mapping; taking them the other way round lets a
+        // queued file growth (mmap write) close a three-thread cycle.
+        let pages = pages.read();
         Self {
             reader: region.create_reader(),
-            pages: pages.read(),
+            pages,
             page_buf: Vec::with_capacity(Self::PER_PAGE),
             page_buf_idx: Self::NO_PAGE,
             pos: from,
